@@ -79,6 +79,10 @@ extern int mpt_data_convert_float64(const double *from, MPT_TYPE(type) type, voi
 	}
 	switch (type) {
 		case 'f':
+			/* finite value exceeds target range */
+			if ((val > FLT_MAX && val <= DBL_MAX) || (val < -FLT_MAX && val >= -DBL_MAX)) {
+				return MPT_ERROR(BadValue);
+			}
 			if (dest) *((float *) dest) = val;
 			return sizeof(float);
 		case 'd':
@@ -124,9 +128,17 @@ extern int mpt_data_convert_exflt(const long double *from, MPT_TYPE(type) type, 
 	}
 	switch (type) {
 		case 'f':
+			/* finite value exceeds target range */
+			if ((val > FLT_MAX && val <= LDBL_MAX) || (val < -FLT_MAX && val >= -LDBL_MAX)) {
+				return MPT_ERROR(BadValue);
+			}
 			if (dest) *((float *) dest) = val;
 			return sizeof(float);
 		case 'd':
+			/* finite value exceeds target range */
+			if ((val > DBL_MAX && val <= LDBL_MAX) || (val < -DBL_MAX && val >= -LDBL_MAX)) {
+				return MPT_ERROR(BadValue);
+			}
 			if (dest) *((double *) dest) = val;
 			return sizeof(double);
 		case 'e':
